@@ -1,7 +1,10 @@
 ---------------------------- MODULE MC_HistPool_c12t ----------------------------
 EXTENDS HistPool
 LA == << <<2, 4>>, <<4, 6>>, <<6, 8>>, <<8, 10>> >>
+L1 == << <<2, 10>> >>
 MCSeeds == {
+  \* a single bin: nothing to merge, nothing to slice away - derived objects must still be objects of their own
+  [L |-> L1, keep |-> TRUE,  batch |-> << <<3, 1>>, <<11, 1>> >>, weighted |-> FALSE, dtype |-> "i8", den |-> 1, name |-> 1],
   [L |-> LA, keep |-> TRUE,  batch |-> << <<3, 1>>, <<5, 1>>, <<5, 1>>, <<9, 1>>, <<11, 1>> >>, weighted |-> FALSE, dtype |-> "i8", den |-> 1, name |-> 1],
   [L |-> LA, keep |-> TRUE,  batch |-> << <<1, 1>>, <<4, 2>>, <<7, 1>> >>, weighted |-> TRUE,  dtype |-> "f8", den |-> 2, name |-> 2]
 }
